@@ -363,6 +363,11 @@ class Layout:
         self.alt_quote_prob = alt_quote_prob
 
 
+# comment bodies: the plain form most of the time, plus bodies holding the characters that delimit other tokens
+HASH_COMMENTS = ["# c%d"] * 6 + ["#c%d", "## c%d ##", "# \"q\" 'x' c%d", "# END LAYER c%d", "# /* c%d */", "#\tc%d /", "# c%d * 2"]
+C_COMMENTS = ["/* cc%d */"] * 6 + ["/*cc%d*/", "/** cc%d **/", "/* a * b cc%d */", "/* # cc%d */", "/* \"q\" cc%d */", "/* 1/2 cc%d */",
+                                  "/*** cc%d ***/", "/* END cc%d */"]
+
 BARE_OK = re.compile(r"^w_[a-z0-9_]+$")
 
 
@@ -410,12 +415,12 @@ class Writer:
             elif k == 6:
                 self.emit("\r\n" if r.random() < 0.5 else "\n")
             elif k == 7 and lay.comments:
-                txt = "# c%d" % len(self.comments)
+                txt = r.choice(HASH_COMMENTS) % len(self.comments)
                 self.emit(" ")
                 self.comments.append((self.line, txt))
                 self.emit(txt + "\n")
             elif k == 8 and lay.comments:
-                txt = "/* cc%d */" % len(self.comments)
+                txt = r.choice(C_COMMENTS) % len(self.comments)
                 self.emit(" ")
                 self.comments.append((self.line, txt))
                 self.emit(txt + " ")
